@@ -70,7 +70,7 @@ def shards(tier):
     if tier == "thorough":
         out += [("core", s) for s in seq_shards(SIGMA_CORE, 7, min_len=7)]
     out += [("lists", i) for i in range(len(CATALOGUE))]
-    out += [("mw", 0), ("depth", 0)]
+    out += [("mw", 0), ("depth", 0)] + [("midlists", i) for i in range(5)]
     out += spaces.ball_shards(1, 3 if tier == "thorough" else 2)
     out += [("ball", b, 2, st, n) for (_, b, _, st, n) in spaces.ball_shards(len(BASES), 2) if b > 0]
     return out
@@ -221,6 +221,20 @@ def run_shard(shard, tier, acc):
                 for sep in SEPS:
                     s = sep.join(names)
                     acc.count("catalogue_lists")
+                    check_string(s, acc)
+    elif kind == "midlists":
+        # lists of middling length: 4..6 (thorough ..7) persons over a five-name sub-catalogue (plain, comma form, a braced
+        # ' and ', a name that is the word 'and', an escape at the end), three separator spellings mixed within one list
+        sub = [CATALOGUE[0], CATALOGUE[1], CATALOGUE[2], CATALOGUE[5], CATALOGUE[9]]
+        first = sub[shard[1]]
+        for n in range(4, (7 if tier == "quick" else 8)):
+            for rest in itertools.product(sub, repeat=n - 1):
+                names = (first,) + rest
+                for variant in range(3):
+                    s = names[0]
+                    for k, nm in enumerate(names[1:]):
+                        s += SEPS[(k * (variant + 1) + variant) % 3] + nm
+                    acc.count("mid_lists")
                     check_string(s, acc)
     elif kind == "depth":
         # nesting depth / long lists: a group nested d deep at every position of a list of n names
